@@ -62,6 +62,7 @@ try:
         result["demo_fails_with_change"] = not ok1
         result["demo_detail_with_change"] = d1
         # store the patch relative to the current HEAD
+        sh("git add -A -N -- src tests examples Cargo.toml")       # new files the change adds belong to the patch too
         diff = sh("git diff HEAD").stdout
     else:
         result["apply_error"] = ap.stdout[-500:]
